@@ -155,7 +155,18 @@ __CPROVER_ensures(len > OLD(context->arbitrary_remaining) ==> (RET == 0 && WROTE
 __CPROVER_ensures(len <= OLD(context->arbitrary_remaining) ==> (context->arbitrary_remaining == OLD(context->arbitrary_remaining) - len
     && context->output_count == OLD(context->output_count) + (context->arbitrary_remaining == 0 ? 1 : 0)
     && WROTE == ((data != NULL) ? len : 0) && RET == WROTE && NO_PUSH(context) && gh_out_calls - OLD(gh_out_calls) <= 1))
+/* (the pointer identity is left out for callers that pass the address of a loop-local object: with it CBMC finds the
+ * post-havoc copy of such a loop body infeasible, i.e. the caller's loop step would be proved vacuously - see DESIGN 8.9) */
+#ifdef BLOCKDATA_NO_PTR_ID
+__CPROVER_ensures((len <= OLD(context->arbitrary_remaining) && data != NULL && len > 0) ==> (gh_last_len == len))
+#else
 __CPROVER_ensures((len <= OLD(context->arbitrary_remaining) && data != NULL && len > 0) ==> (gh_last_data == data && gh_last_len == len))
+#endif
+/* the bytes written are the caller's bytes (watched position), everything else leaves the watch alone */
+__CPROVER_ensures((len <= OLD(context->arbitrary_remaining) && data != NULL && len > 0 && OLD(gh_out_len) <= (1ul << 62) && gh_watch >= OLD(gh_out_len) && gh_watch < OLD(gh_out_len) + len)
+    ==> gh_watch_val == ((const char *) data)[gh_watch - OLD(gh_out_len) < len ? gh_watch - OLD(gh_out_len) : 0])
+__CPROVER_ensures((OLD(gh_out_len) <= (1ul << 62) && !(len <= OLD(context->arbitrary_remaining) && data != NULL && len > 0 && gh_watch >= OLD(gh_out_len) && gh_watch < OLD(gh_out_len) + len))
+    ==> gh_watch_val == OLD(gh_watch_val))
 ;
 size_t SCPI_ResultArbitraryBlock(scpi_t * context, const void * data, size_t len)
 __CPROVER_requires(CTX_OUT_PRE_L(context, 2) && CTX_ERRQ_OK(context) && len < 1000000000ul && (len == 0 || __CPROVER_is_fresh(data, len)))
@@ -166,5 +177,9 @@ __CPROVER_ensures(gh_out_calls - OLD(gh_out_calls) <= 3)
 __CPROVER_ensures(RET == WROTE && WROTE == (HAD_ITEMS ? 1 : 0) + 2 + len + (len >= 100000000u ? 9 : len >= 10000000u ? 8 : len >= 1000000u ? 7 : len >= 100000u ? 6
     : len >= 10000u ? 5 : len >= 1000u ? 4 : len >= 100u ? 3 : len >= 10u ? 2 : 1))
 __CPROVER_ensures(len > 0 ==> (gh_last_data == data && gh_last_len == len))
+#define BLK_HDR(n) ((HAD_ITEMS ? 1 : 0) + 2 + ((n) >= 100000000u ? 9 : (n) >= 10000000u ? 8 : (n) >= 1000000u ? 7 : (n) >= 100000u ? 6 : (n) >= 10000u ? 5 : (n) >= 1000u ? 4 : (n) >= 100u ? 3 : (n) >= 10u ? 2 : 1))
+__CPROVER_ensures(WATCH_FIRST ==> gh_watch_val == (HAD_ITEMS ? ',' : '#'))
+__CPROVER_ensures((OLD(gh_out_len) <= (1ul << 60) && gh_watch >= OLD(gh_out_len) + BLK_HDR(len) && gh_watch < gh_out_len)
+    ==> gh_watch_val == ((const char *) data)[gh_watch - OLD(gh_out_len) - BLK_HDR(len) < len ? gh_watch - OLD(gh_out_len) - BLK_HDR(len) : 0])
 ;
 #endif
